@@ -223,6 +223,19 @@ def main():
     xs = gen_sqrt(ck)
     a, _, _ = vlib.run_lines(hcmd, ["sqrt %d" % x for x in xs])
     b, _, _ = vlib.run_lines(drv, ["sqrt %d" % x for x in xs])
+    # the translator: squareroot() as GENERATED from today's qmail-send.c (coq/gen/CGen.v, proved equal to the model in
+    # Tie/Gen_numbers.v) runs against the compiled function too, and so do the other generated leaf functions
+    import gen_common
+    gen_common.translator_selfcheck(ck, rb, mism)
+    try:
+        sel = [(x, y) for x, y in zip(xs, a) if 0 <= x < 2 ** 32]
+        sel = sel[:300] + ck.rng.sample(sel, min(len(sel), 3000 if ck.thorough else 700))
+        g, _, _ = vlib.run_lines(vlib.build_driver("GEN"), ["squareroot %d" % x for x, _ in sel])
+        for x, ga, gb in zip([x for x, _ in sel], [y for _, y in sel], g):
+            ck.evaluated(); ck.count("generated_squareroot")
+            if ga != gb: mism.append(dict(fn="squareroot (generated from C)", x=x, observed=ga, model=gb))
+    except RuntimeError as e:
+        mism.append(dict(fn="generated functions do not build", log=str(e)[-600:]))
     ck.evaluated(len(xs)); ck.count("sqrt_grid", len(xs))
     for x, ra, rb_ in zip(xs, a, b):
         r = int(ra)
